@@ -28,13 +28,13 @@ OUTSIDE = ["more than 3 sources", "errors inside clean-up routines racing with t
            "same-instant orders other than heapq's (at a tie every tied source is accepted)"]
 STUBS = ["virtual-time loop with symbolic clock"]
 ASSUMPTIONS = ["a handler error is reported as EdzedCircuitError whose __cause__ is the original exception"]
-EXPECT_LABELS = {'all': ['first-error-reported', 'error-attr', 'shutdown-reraises', 'cancel-is-normal', 'not-ready-after',
+EXPECT_LABELS = {'all': ['first-delivered-wins', 'first-error-reported', 'error-attr', 'shutdown-reraises', 'cancel-is-normal', 'not-ready-after',
                          'harmless-dont-stop', 'run-result', 'abort-before-start', 'nonfatal-init']}
 EXPECT_NOTES = {'all': ['tie', 'fatal-first', 'cancel-first', 'only-harmless', 'caught-handler-error-aborts']}
 FLOORS = {'quick': {'paths': 300, 'checks': 1500}, 'thorough': {'paths': 3000, 'checks': 15000}}
 
 
-def build(env, kinds, times):
+def build(env, kinds, times, fired):
     circ = fresh_circuit()
 
     class PB(edzed.SBlock):
@@ -43,6 +43,7 @@ def build(env, kinds, times):
 
         def _event_x(self, *, value, fail=None, **_):
             if fail is not None:
+                fired.append(fail)
                 raise RuntimeError(f"marker-{fail}")
             self.set_output(value)
             return 'ok'
@@ -57,12 +58,14 @@ def build(env, kinds, times):
 
         async def _maintask(self):
             await asyncio.sleep(self._t)
+            fired.append(self._marker)
             raise KeyError(f"marker-{self._marker}")
 
     pb = PB('pb')
 
     def fb_func(x):
         if isinstance(x, tuple) and x[0] == 'boom':
+            fired.append(x[1])
             raise ZeroDivisionError(f"marker-{x[1]}")
         return x
     edzed.FuncBlock('fb', func=fb_func).connect(pb)
@@ -73,8 +76,10 @@ def build(env, kinds, times):
     return circ, pb
 
 
-async def fire(circ, pb, kind, i, t, caught):
+async def fire(circ, pb, kind, i, t, caught, fired, yields):
     await asyncio.sleep(t)
+    for _ in range(yields):
+        await asyncio.sleep(0)      # iteration-level offset within the same virtual instant
     try:
         if kind == 'handler':
             try:
@@ -84,15 +89,19 @@ async def fire(circ, pb, kind, i, t, caught):
         elif kind == 'calc':
             pb.event('x', value=('boom', i))
         elif kind == 'abort':
+            fired.append(i)
             circ.abort(OSError(f"marker-{i}"))
         elif kind == 'ctrl-abort':
+            fired.append(i)
             circ.findblock('_ctrl').event('abort', source='h', error=f"marker-{i}")
         elif kind == 'shutdown':
+            fired.append(i)
             try:
                 await circ.shutdown()
             except Exception:
                 pass
         elif kind == 'ctrl-shutdown':
+            fired.append(i)
             circ.findblock('_ctrl').event('shutdown', source=f"marker-{i}")
         elif kind == 'badparam':
             try:
@@ -126,13 +135,15 @@ def marker_of(err):
 def scen_errors(env, kinds, use_run):
     n = len(kinds)
     times = [env.real(f't{i}', 1, 10) for i in range(n)]
-    circ, pb = build(env, kinds, times)
+    fired = []          # ground truth: the order in which the sources actually delivered their error
+    circ, pb = build(env, kinds, times, fired)
+    yields = [env.choose(3, f'yields{i}') if n > 1 else 0 for i in range(n)]
     caught = []
     res = {}
 
     async def main():
         loop = asyncio.get_running_loop()
-        fires = [fire(circ, pb, k, i, times[i], caught) for i, k in enumerate(kinds) if k != 'task']
+        fires = [fire(circ, pb, k, i, times[i], caught, fired, yields[i]) for i, k in enumerate(kinds) if k != 'task']
         if use_run:
             async def support(coro):
                 await coro
@@ -196,6 +207,16 @@ def scen_errors(env, kinds, use_run):
             env.note('fatal-first')
             env.check('run-result', what == 'raised' and bool(marker_of(val) & set(first)), info=lambda: (kinds, first, res))
         return
+    # the error delivered FIRST (instrumented ground truth, iteration-exact) is the reported one
+    order = [i for i in fired if kinds[i] in FATAL or kinds[i] in CANCEL]
+    if order:
+        f0 = order[0]
+        if kinds[f0] in CANCEL:
+            env.check('first-delivered-wins', isinstance(res['error'], asyncio.CancelledError),
+                      info=lambda: (kinds, fired, res['error']))
+        else:
+            env.check('first-delivered-wins', f0 in marker_of(res['error']),
+                      info=lambda: (kinds, yields, fired, res['error'], [str(t) for t in times]))
     what, exc = res['sim']
     env.check('error-attr', exc is err or (isinstance(exc, asyncio.CancelledError) and isinstance(err, asyncio.CancelledError)),
               info=lambda: (exc, err))
